@@ -412,6 +412,31 @@ def check_extra_rule(rec):
             if witness:
                 rec.fail("C13:extra-policy-not-enforced", case, "child accepted; its instance is rejected by the Extra.forbid parent", "refused at class creation")
         rec.case(nt_key=["extra", child_extra, add], classes=["extra_rule", "extra_forbid_parent"], sample=case)
+    # ... also when the new field comes from a decorator (constant fields, JSON-LD type annotation)
+    from metador_core.schema.decorators import add_const_fields
+    from metador_core.schema.ld import ld
+
+    for how in ("add_const_fields", "ld"):
+        p = mk(MetadataSchema, T.Int, plugin=True, extra="forbid")
+        case = dict(kind="extra", how=how)
+        try:
+            c = mk(p, None, plugin=True)
+            c = add_const_fields({"kind": "special"})(c) if how == "add_const_fields" else ld(type="Special")(c)
+            check_types(c)
+            refused = False
+        except (TypeError, ValueError):
+            refused = True
+        if not refused:
+            try:
+                raw = bytes(c(x=1))
+                p.parse_raw(raw)
+                witness = None
+            except Exception as e:  # noqa: BLE001
+                witness = f"{raw!r}: {str(e)[:120]}"
+            if witness:
+                rec.fail(f"C13:extra-policy-not-enforced:{how}", case, f"child with fields added by @{how} accepted; it dumps {witness}",
+                         "refused (the Extra.forbid parent rejects the new field)")
+        rec.case(nt_key=["extra", how], classes=["extra_rule", "extra_forbid_parent"], sample=case)
 
 
 def check_installed(name, version, recipe, rec=None):
